@@ -8,6 +8,8 @@ from .ribharness import Session, route, reported
 
 P = ['10.0.1.0/24', '10.0.2.0/24']
 OPS = [('ann', 0, 10), ('ann', 0, 20), ('ann', 1, 10), ('wd', 0, None), ('wd', 0, 20), ('wd', 1, None), ('flush',), ('part', 1), ('clear',), ('resend',)]
+# watchdog operations (a second, smaller alphabet explored on its own: the route of prefix 1 belongs to watchdog "w")
+WOPS = [('wadd', 1, 10, False), ('wadd', 1, 10, True), ('wup',), ('wdown',), ('ann', 0, 10), ('wd', 1, None), ('flush',), ('part', 1)]
 
 
 def apply(s, op):
@@ -23,6 +25,12 @@ def apply(s, op):
         s.rib.withdraw()
     elif op[0] == 'resend':
         s.rib.resend(False)
+    elif op[0] == 'wadd':
+        s.rib.add_to_rib_watchdog(route(P[op[1]], op[2], extra='watchdog w' + (' withdraw' if op[3] else '')))
+    elif op[0] == 'wup':
+        s.rib.announce_watchdog('w')
+    elif op[0] == 'wdown':
+        s.rib.withdraw_watchdog('w')
 
 
 def run_sequence(seq):
@@ -41,6 +49,7 @@ def run_sequence(seq):
     import socket
 
     model = {}
+    dog = {}  # prefix -> [med, 'up' | 'down']: the routes watchdog "w" holds
     for op in seq:
         if op[0] == 'ann':
             model[op[1]] = op[2]
@@ -48,6 +57,20 @@ def run_sequence(seq):
             model.pop(op[1], None)
         elif op[0] == 'clear':
             model = {}
+        elif op[0] == 'wadd':
+            dog[op[1]] = [op[2], 'down' if op[3] else 'up']
+            if not op[3]:
+                model[op[1]] = op[2]
+        elif op[0] == 'wup':
+            for k, v in dog.items():
+                if v[1] == 'down':
+                    v[1] = 'up'
+                    model[k] = v[0]
+        elif op[0] == 'wdown':
+            for k, v in dog.items():
+                if v[1] == 'up':
+                    v[1] = 'down'
+                    model.pop(k, None)
     intended = {(1, 24, socket.inet_aton(P[k].split('/')[0])[:3]): ('192.0.2.1', med) for k, med in model.items()}
     if got != intended:
         return {'what': 'after the queue drained the peer does not hold the intended table (announces not since withdrawn, last attributes)', 'input': {'ops': [list(o) for o in seq]}, 'intended': str(sorted(intended.items())), 'peer': str(sorted(got.items())), 'reported': str(sorted(want.items()))}
@@ -66,6 +89,21 @@ def operation_sequences(tier, seed):
             f = run_sequence(seq)
             if f:
                 fails.append(f)
+    # the watchdog alphabet
+    wdepth = 4 if tier == 'quick' else 5
+    for n in range(1, wdepth + 1):
+        for seq in itertools.product(WOPS, repeat=n):
+            if not any(o[0] in ('wadd', 'wup', 'wdown') for o in seq):
+                continue
+            if sum(1 for o in seq if o[0] == 'wadd') > 1:
+                continue  # a route is put under a watchdog once (configuration); re-adding it in another state has no defined meaning
+            # from an empty peer, and from a peer which already holds an older announcement of the watchdog's prefix
+            for init in ((), (('ann', 1, 20), ('flush',))):
+                evals += 1
+                distinct.add(init + seq)
+                f = run_sequence(init + seq)
+                if f:
+                    fails.append(f)
     extra = 600 if tier == 'quick' else 6000
     for _ in range(extra):
         seq = tuple(rnd.choice(OPS) for _ in range(rnd.randint(depth + 1, depth + 3)))
@@ -79,7 +117,7 @@ def operation_sequences(tier, seed):
     samples = [{'ops': [list(o) for o in s_]} for s_ in list(distinct)[:3]]
     # keep the shortest failures first: they are the readable ones
     fails.sort(key=lambda f: len(f['input']['ops']))
-    return {'evaluations': evals, 'distinct_nontrivial': len(distinct), 'exhaustive': True, 'bound': f'all sequences of length <= {depth} over 10 operations (announce x/y of 2 prefixes, withdraw with/without attributes, flush, consume-one-update, clear adj-rib-out, resend) + {extra} sampled longer ones', 'rule': 'one case = one operation sequence; distinct by value', 'samples': samples, 'failures': fails}
+    return {'evaluations': evals, 'distinct_nontrivial': len(distinct), 'exhaustive': True, 'bound': f'all sequences of length <= {depth} over 10 operations (announce x/y of 2 prefixes, withdraw with/without attributes, flush, consume-one-update, clear adj-rib-out, resend) + {extra} sampled longer ones; and all sequences of length <= {wdepth} over 8 watchdog operations (route added to watchdog w announced / withdrawn, announce watchdog, withdraw watchdog, plain announce / withdraw, flush, consume-one)', 'rule': 'one case = one operation sequence; distinct by value', 'samples': samples, 'failures': fails}
 
 
 @replayer('C04', 'operation-sequences')
